@@ -153,21 +153,16 @@ Proof.
 Qed.
 Print Assumptions C03_atleast_nd.
 
-(* flip with non-negative axes (None, one axis, a list): NumPy's element i_k -> n_k-1-i_k on the
-   flipped axes, inside the source, shape unchanged *)
-Theorem C03_flip_on_domain : forall ax s i, (forall a, In a (axes_of ax) -> 0 <= a) -> inb i s ->
+(* flip (None, one axis, a list of axes; negative axes count from the end as in NumPy): NumPy's
+   element i_k -> n_k-1-i_k on the flipped axes, inside the source, shape unchanged.  Holds for every
+   axis argument; np_flip_ok (what NumPy accepts) is met e.g. by Example C03_nonvacuous_flip *)
+Theorem C03_flip : forall ax s i, inb i s ->
   flip_accept ax s = Some s /\ flip_index ax s i = np_flip_index ax s i /\ inb (flip_index ax s i) s.
 Proof.
-  intros ax s i Hax Hi. split; [reflexivity|].
-  split; [exact (flip_index_np ax s i Hax (inb_length _ _ Hi)) | exact (flip_inb ax s i Hi)].
+  intros ax s i Hi. split; [reflexivity|].
+  split; [exact (flip_index_np ax s i (inb_length _ _ Hi)) | exact (flip_inb ax s i Hi)].
 Qed.
-Print Assumptions C03_flip_on_domain.
-
-(* the full statement (axes that NumPy accepts, negative ones included) fails *)
-Theorem C03_flip_negative_axis_refuted :
-  exists s ax i, np_flip_ok (length s) ax = true /\ inb i s /\ flip_index ax s i <> np_flip_index ax s i.
-Proof. exact flip_negative_axis_refuted. Qed.
-Print Assumptions C03_flip_negative_axis_refuted.
+Print Assumptions C03_flip.
 
 Theorem C03_flip_flip : forall ax s i, length i = length s -> flip_index ax s (flip_index ax s i) = i.
 Proof. exact flip_flip. Qed.
@@ -226,6 +221,13 @@ Example C03_nonvacuous_moveaxis :
   /\ moveaxis_accept (AxOne 0) (AxOne (-1)) [2;3;4] = Some [3;4;2].
 Proof. repeat split; reflexivity. Qed.
 Example C03_nonvacuous_flip :
-  flip_index (AxList [0;2]) [2;3;4] [0;1;1] = [1;1;2] /\ np_flip_index (AxList [0;2]) [2;3;4] [0;1;1] = [1;1;2]
-  /\ flip_index (AxOne (-1)) [2;3] [0;0] = [0;0] /\ np_flip_index (AxOne (-1)) [2;3] [0;0] = [0;2].
+  np_flip_ok 3 (AxList [0;-1]) = true
+  /\ flip_index (AxList [0;-1]) [2;3;4] [0;1;1] = [1;1;2] /\ np_flip_index (AxList [0;-1]) [2;3;4] [0;1;1] = [1;1;2]
+  /\ flip_slices 3 (AxOne (-2)) = [1;-1;1].
 Proof. repeat split; reflexivity. Qed.
+(* regression for the repaired defect (fix: flip normalises a negative axis): before the repair
+   flip(a,-1) left the array unflipped, i.e. read [0;0] here *)
+Example C03_flip_negative_axis_regression :
+  np_flip_ok 2 (AxOne (-1)) = true /\ inb [0;0] [2;3]
+  /\ flip_index (AxOne (-1)) [2;3] [0;0] = [0;2] /\ np_flip_index (AxOne (-1)) [2;3] [0;0] = [0;2].
+Proof. repeat split; try reflexivity; repeat constructor; lia. Qed.
